@@ -22,3 +22,5 @@ mod c17;
 mod c01;
 #[cfg(kani)]
 mod c03;
+#[cfg(kani)]
+mod c04f;
